@@ -4,6 +4,7 @@ encoder yields the shortest spelling.  (Value-only dependence of the name
 lookups is in `C08Names`, over tables regenerated from the source.)
 -/
 import UH.Proofs.Number
+import UH.Model.Parse
 namespace UH.C08
 open UH
 
@@ -98,6 +99,36 @@ theorem encode_injective (m n : Int) (h : encodeNumber m = encodeNumber n) : m =
 theorem encode_ne_nil (n : Int) : encodeNumber n ≠ [] := by
   obtain ⟨e, _, he, _⟩ := encode_shape n
   rw [he]; simp [natDigits_ne_nil]
+
+/-- zero in every spelling: a word of `k+1` zero digits denotes 0 whatever its parity (−0 = 0) -/
+theorem zero_any_length (k : Nat) : parseNumber (List.replicate (k + 1) (0 : Digit)) = 0 := by
+  have h := (spellings (List.replicate (k + 1) (0 : Digit)) (by simp) 0).mpr
+    ⟨k, by
+      have : encodeNumber 0 = [0] := by decide +kernel
+      rw [this]; rfl, by simp⟩
+  exact h
+
+/-- **the parser looks at a literal's value only**: two non-empty digit words denoting the same number are
+interchangeable as a value, as a call arity (`ㅎ…`) and as a frame number (`ㅇ…`), for every stack -/
+theorem parseWord_value_only (w₁ w₂ : List Digit) (h₁ : w₁ ≠ []) (h₂ : w₂ ≠ [])
+    (h : parseNumber w₁ = parseNumber w₂) (sp : Span) (stack : List AST) :
+    parseWord (.lit w₁) sp stack = parseWord (.lit w₂) sp stack ∧
+    parseWord (.h w₁) sp stack = parseWord (.h w₂) sp stack ∧
+    parseWord (.o w₁) sp stack = parseWord (.o w₂) sp stack := by
+  cases w₁ with
+  | nil => exact absurd rfl h₁
+  | cons d₁ r₁ =>
+    cases w₂ with
+    | nil => exact absurd rfl h₂
+    | cons d₂ r₂ => simp only [parseWord, h, and_self]
+
+/-- in particular a zero-argument call may spell its arity `ㅎㄱ`, `ㅎㄱㄱ`, `ㅎㄱㄱㄱ`, … -/
+theorem zero_arity_any_spelling (k : Nat) (sp : Span) (s : List AST) (f : AST) :
+    parseWord (.h (List.replicate (k + 1) (0 : Digit))) sp (s ++ [f]) = .ok (s ++ [.call f [] sp]) := by
+  have hz := zero_any_length k
+  have : List.replicate (k + 1) (0 : Digit) = 0 :: List.replicate k 0 := rfl
+  rw [this] at hz ⊢
+  simp [parseWord, hz]
 
 -- non-vacuity / documented examples (docs/spec.md:37-44)
 example : parseNumber [1, 0] = -1 := by decide
